@@ -249,6 +249,15 @@ mod imp {
         match_into(pl, l, &mut th) && match_into(pr, r, &mut th) && injective_on(&th, &pl.fv()) && injective_on(&th, &pr.fv())
     }
 
+    /// the conclusion of an explanation: the queried equation up to ONE renaming that is injective on all slots of the
+    /// equation together (a proof of a more general equation - two slots of the query kept apart - is not the queried one)
+    pub fn same_equation(pl: &ST, pr: &ST, l: &ST, r: &ST) -> bool {
+        let mut th = BTreeMap::new();
+        let mut all = pl.fv();
+        all.extend(pr.fv());
+        match_into(pl, l, &mut th) && match_into(pr, r, &mut th) && injective_on(&th, &all)
+    }
+
     pub struct Asserted {
         pub just: String,
         pub l: ST,
@@ -713,7 +722,7 @@ mod imp {
                 let pr = render(&eg, &eq.r, &sig)?;
                 let ql = to_st(&ta, &sig)?;
                 let qr = to_st(&tb, &sig)?;
-                if !instance_of(&pl, &pr, &ql, &qr) {
+                if !same_equation(&pl, &pr, &ql, &qr) {
                     return Err(format!("explanation of t{} = t{} concludes {} = {} instead of {} = {}", i, j, pl.show(), pr.show(), ql.show(), qr.show()));
                 }
                 check_proof(&eg, &sig, &proof, &asserted, &rules, &mut stats).map_err(|e| format!("explanation of t{} = t{} ({} = {}): {}", i, j, ql.show(), qr.show(), e))?;
@@ -749,7 +758,7 @@ mod imp {
                         let pl = render(&eg, &eq.l, &sig)?;
                         let pr = render(&eg, &eq.r, &sig)?;
                         let (ql, qr) = (to_st(&x, &sig)?, to_st(&y, &sig)?);
-                        if !instance_of(&pl, &pr, &ql, &qr) {
+                        if !same_equation(&pl, &pr, &ql, &qr) {
                             return Err(format!("explanation of {} = {} concludes {} = {}", ql.show(), qr.show(), pl.show(), pr.show()));
                         }
                         check_proof(&eg, &sig, &proof, &asserted, &rules, &mut stats).map_err(|e| format!("explanation of {} = {} (second term never inserted): {}", ql.show(), qr.show(), e))?;
@@ -824,7 +833,7 @@ mod imp {
                 let pl = render(&eg, &eq.l, &sig)?;
                 let pr = render(&eg, &eq.r, &sig)?;
                 let (ql, qr) = (to_st(&ta, &sig)?, to_st(&tv, &sig)?);
-                if !instance_of(&pl, &pr, &ql, &qr) {
+                if !same_equation(&pl, &pr, &ql, &qr) {
                     return Err(format!("explanation of {} = {} concludes {} = {}", ql.show(), qr.show(), pl.show(), pr.show()));
                 }
                 check_proof(&eg, &sig, &proof, &asserted, &rules, &mut stats).map_err(|e| format!("explanation of {} = {} (permuted copy, never inserted): {}", ql.show(), qr.show(), e))?;
@@ -889,6 +898,7 @@ pub fn property(tier: Tier) -> Property {
         ("explain-arith2", crate::langs::LangId::Arith2, 600, 12_000),
     ] {
         let mut cfg = MixedCfg::for_lang(lang);
+        cfg.hist.namings = crate::tm::Naming::diverse();
         cfg.max_ops = tier.pick(7, 10);
         cfg.addsyn_p = 16; // always add_syn_expr: union_justified on handles of plain add_expr loses the syntactic identity of the term by design
         cfg.allow_extraction_subst = false;
